@@ -214,9 +214,13 @@ def main():
             if out[0] != 'ok':
                 return '_setup_seed raised ' + out[1]
             import re
-            seeds = [int(re.sub(r'^.*\-r *([0-9]+).*$', r'\g<1>', a)) for a in out[1]]
+            # the seed a run really uses: the LAST -r of its argument string (getopt), glued or not
+            seeds = [int(re.findall(r'\-r *([0-9]+)', a)[-1]) for a in out[1]]
             if '-r' in args and len(set(seeds)) != nruns:
                 return 'the derived seeds are not distinct: %r' % seeds
+            given = re.findall(r'\-r *([0-9]+)', args)
+            if given and seeds != [int(given[-1]) + i for i in range(nruns)]:
+                return 'the seeds of the runs %r are not derived from the given one (%s + run)' % (seeds, given[-1])
             for a in out[1]:
                 if re.sub(r'\-r *[0-9]+', '', a).split() != re.sub(r'\-r *[0-9]+', '', args).split():
                     return 'something else than the seed changed: %r vs %r' % (a, args)
